@@ -291,6 +291,18 @@ struct MtRun {
     std::vector<int> exc_seen;              // per consumer: pops that failed with the unblock exception
     std::vector<int> push_exc_seen;         // per producer: pushes that failed with the unblock exception (item withdrawn, pushed again)
     int unblock_true = 0;
+    // bounded queue: a push that had to wait is watched by a hand-written awaiter, which runs inside the queue operation that
+    // completes it and notes when THAT operation began (each thread notes the begin of its current queue operation)
+    static int &cur_op_begin() { static thread_local int t = 0; return t; }
+    struct WaitAw : cocls::awaiter {
+        int resolver_begin = 0; std::atomic<int> fired{0};
+        WaitAw() { set_resume_fn(&fn); }
+        static cocls::suspend_point<void> fn(cocls::awaiter *me, void *) noexcept { auto *w = static_cast<WaitAw *>(me); w->resolver_begin = cur_op_begin(); w->fired.store(1, std::memory_order_release); return {}; }
+    };
+    struct BlockedIv { int t_reg, resolver_begin; };
+    std::vector<std::vector<BlockedIv>> blocked_iv;     // per producer
+    struct UnblockCall { int tb, te; bool r; };
+    std::vector<UnblockCall> unblock_calls;
 
     cocls::async<void> prod_coro(int i) {
         const Party &x = p->prod[(size_t)i];
@@ -307,13 +319,22 @@ struct MtRun {
             pushed[(size_t)i].push_back(rec);
         }
     }
-    void prod_thread(int i) {
+    void prod_thread(int i) { prod_thread_body(i); hz::slot_add(18, 1); }
+    void prod_thread_body(int i) {
         const Party &x = p->prod[(size_t)i];
         if (x.flavour == 0) { cocls::future<void> f = prod_coro(i).start(); f.wait(); return; }
         for (int k = 0; k < x.count; k++) {
             hz::upoints(x.yields);
             PushRec rec{i * 1000 + k, hz::tick(), 0};
-            if constexpr (BOUNDED) { try { q->push(rec.v).wait(); } catch (const val::TestExc &) { push_exc_seen[(size_t)i]++; k--; continue; } }
+            if constexpr (BOUNDED) {
+                cur_op_begin() = hz::tick();
+                cocls::future<void> f = q->push(rec.v);
+                if (!f.ready()) {
+                    WaitAw aw; int t_reg = hz::tick();
+                    if (f.operator co_await().subscribe(&aw)) { hz::slot_add(17, 1); while (!aw.fired.load(std::memory_order_acquire)) vrt::yield(); hz::slot_add(17, -1); blocked_iv[(size_t)i].push_back({t_reg, aw.resolver_begin}); }
+                }
+                try { f.value(); } catch (const val::TestExc &) { push_exc_seen[(size_t)i]++; k--; continue; }
+            }
             else q->push(rec.v);
             rec.t_end = hz::tick();
             pushed[(size_t)i].push_back(rec);
@@ -324,6 +345,7 @@ struct MtRun {
         for (int k = 0; k < x.count; k++) {
             hz::upoints(x.yields);
             bool ok = false; int v = 0;
+            cur_op_begin() = hz::tick();
             try { v = co_await q->pop(); ok = true; } catch (const val::TestExc &) { exc_seen[(size_t)i]++; }
             if (ok) got[(size_t)i].push_back(v); else k--;      // pop failed by unblock_pop: try again
         }
@@ -333,16 +355,20 @@ struct MtRun {
         if (x.flavour == 0) { cocls::future<void> f = cons_coro(i).start(); f.wait(); return; }
         for (int k = 0; k < x.count; k++) {
             hz::upoints(x.yields);
+            cur_op_begin() = hz::tick();
             try { int v = q->pop().wait(); got[(size_t)i].push_back(v); } catch (const val::TestExc &) { exc_seen[(size_t)i]++; k--; }
         }
     }
     void run(const MtProg &prog) {
         p = &prog;
         if constexpr (BOUNDED) q.reset(new Q(prog.limit)); else q.reset(new Q());
-        got.resize(prog.cons.size()); pushed.resize(prog.prod.size()); exc_seen.assign(prog.cons.size(), 0); push_exc_seen.assign(prog.prod.size(), 0);
+        got.resize(prog.cons.size()); pushed.resize(prog.prod.size()); exc_seen.assign(prog.cons.size(), 0); push_exc_seen.assign(prog.prod.size(), 0); blocked_iv.resize(prog.prod.size());
         std::vector<std::thread> th;
         if constexpr (BOUNDED) if (prog.unblocks) th.emplace_back([this, &prog] {
-            for (unsigned k = 0; k < prog.unblocks; k++) { hz::upoints(1 + k); bool r = q->unblock_push(std::make_exception_ptr(val::TestExc(9))); if (r) unblock_true++; }
+            for (unsigned k = 0; k < prog.unblocks; k++) { hz::upoints(1 + k);
+                // (the last call waits until some watched push is blocked - or every producer is done - so that it has a target)
+                if (k + 1 == prog.unblocks) while (hz::slot_get(17) == 0 && hz::slot_get(18) < (long)prog.prod.size()) vrt::yield();
+                int tb = hz::tick(); cur_op_begin() = tb; bool r = q->unblock_push(std::make_exception_ptr(val::TestExc(9))); unblock_calls.push_back({tb, hz::tick(), r}); if (r) unblock_true++; }
         });
         if constexpr (!BOUNDED) if (prog.unblocks) th.emplace_back([this, &prog] {
             for (unsigned k = 0; k < prog.unblocks; k++) { hz::upoints(1 + k); bool r = q->unblock_pop(std::make_exception_ptr(val::TestExc(9))); if (r) unblock_true++; }
@@ -378,6 +404,10 @@ struct MtRun {
         }
         int push_exc_total = 0; for (int e : push_exc_seen) push_exc_total += e;
         if constexpr (BOUNDED) HZ_CHECK(push_exc_total == unblock_true, "unblock_push reported success %d times but %d pushes failed with its exception (exactly the oldest blocked push must fail)", unblock_true, push_exc_total);
+        // unblock_push reports 'nothing was blocked' only if that is so: a push that waited since before the call began and was
+        // completed by an operation that began after the call had returned was blocked throughout the call
+        if constexpr (BOUNDED) for (auto &u : unblock_calls) if (!u.r) for (auto &v : blocked_iv) for (auto &b : v)
+            HZ_CHECK(!(b.t_reg < u.tb && b.resolver_begin > u.te), "unblock_push (t=%d..%d) reported that no push was blocked although a push was blocked from t=%d until an operation that began at t=%d completed it", u.tb, u.te, b.t_reg, b.resolver_begin);
         int exc_total = 0; for (int e : exc_seen) exc_total += e;
         if constexpr (!BOUNDED) HZ_CHECK(exc_total == unblock_true, "unblock_pop reported success %d times but %d pops failed with its exception (exactly the oldest waiting pop must fail)", unblock_true, exc_total);
         HZ_CHECK(q->empty() && q->size() == 0, "queue not empty after every item was consumed (size %zu)", q->size());
